@@ -328,31 +328,67 @@ def _arith_outer(ctx, d_default, d_custom):
     ctx.sample(dict(kind="outer-arith", expr=exprs[0], default=od[0], customll=oc[0]))
 
 
+def _builds(ctx):
+    """build the four variants; a variant that does not build while its reference variant does is itself a violation of
+    the property (the build runs chibi's own Scheme tools: init-7.scm, meta-7.scm, chibi-ffi are the failing program)"""
+    B.VARIANTS.setdefault("nosimplify_customll", dict(CPPFLAGS="-D%s=1 -DSEXP_USE_SIMPLIFY=0 -DSEXP_USE_CUSTOM_LONG_LONGS=1" % B.GUARD))
+    names = dict(default="default", nosimplify="nosimplify", customll="customll", both="nosimplify_customll")
+    dirs, errs = {}, {}
+    for k, v in names.items():
+        try:
+            dirs[k] = B.build(v)
+        except B.BuildError as e:
+            errs[k] = str(e)
+            ctx.checker_cmds.append("build of variant %s failed" % v)
+    refs = dict(default="nosimplify", customll="default", both="nosimplify")
+    for k, err in errs.items():
+        ref = refs.get(k)
+        tail = [l for l in err.split("\n") if l.strip()][-12:]
+        step = next((l for l in reversed(tail) if "chibi-scheme" in l and ("tools/" in l or "-q" in l)), tail[-1] if tail else "")
+        d = os.path.join(B.SCRATCH, "%s-%s" % (names[k], B.source_hash()))
+        if ref and ref in dirs:
+            ctx.violation("build-variant:%s-breaks-bootstrap" % ("simplify" if k == "default" else "customll"),
+                          input="the build's own Scheme programs (lib/init-7.scm, lib/meta-7.scm, tools/chibi-ffi) run by `make all`: %s" % step.strip()[:300],
+                          expected="the same make step completes under variant %s (it does)" % names[ref], observed="\n".join(tail)[-900:], variant=names[k],
+                          replay="cd %s && make all %s   # fails; the same tree builds with variant %s" % (d, " ".join("%s='%s'" % kv for kv in B.VARIANTS[names[k]].items()), names[ref]),
+                          why="turning the variant on changes the behaviour of a program that runs correctly without it")
+        else:
+            ctx.broken("build:" + names[k], err[-1500:])
+    return dirs, errs
+
+
 def run(ctx):
-    ctx.cov["rule"] = ("(A) inner: every helper of bignum.h:63-392 on {hi,lo} pairs drawn from a lattice of boundary words (0, 1, 2^31.., 2^32+-1, "
-                       "2^62+-1, 2^63+-1, 2^64-1, alternating bits) and random words, shift counts at 0/1/31..33/63..65/95..97/126/127 and random, "
-                       "near-equal operand pairs, divisors of every size; compared helper = extracted translation = native __int128 = Z spec; "
+    ctx.cov["rule"] = ("(A) inner: every helper of bignum.h:63-392 on {hi,lo} pairs: first a deterministic lattice (every high-word class x every "
+                       "low-word class: 0, 1, 2^32+-1, 2^62-2..2^62+1, 2^63+-1, 2^64-2^62+-1, 2^64-1; all boundary shift counts), then random/boundary "
+                       "words, near-equal operand pairs, divisors of every size; compared helper = extracted translation = native __int128 = Z spec; "
                        "non-trivial when a high word is involved or the result crosses 2^64.  outer: + - * quotient remainder modulo gcd expt sqrt "
-                       "number<->string on values around 2^31, 2^62, 2^64, 2^96, 2^128 and random, customll build = default build = Z.")
+                       "number<->string on values around 2^31, 2^62, 2^64, 2^96, 2^128 and random, customll build = default build = Z.  "
+                       "(B) generated let-fragment programs (see notes: folds incl. raising and overflowing ones, constant lets, shadowing, assigned "
+                       "parameters, literal tests, dropped and effectful statements) + corpus: analysed and optimised AST compared token for token with "
+                       "the model, SPEC value before = after; the same programs and richer ones (closures, recursion, rest parameters) under four builds.")
     from gen import c09_luint
-    d_custom = ctx.build("customll")
+    dirs, errs = _builds(ctx)
+    d_custom = dirs.get("customll") or os.path.join(B.SCRATCH, "customll-%s" % B.source_hash())
+    if not os.path.exists(os.path.join(d_custom, "include", "chibi", "install.h")):
+        ctx.broken("translator:C09_Luint", "no customll build tree with generated headers to translate from")
+        return
     got = c09_luint.regen(ctx, d_custom)
     ctx.coq_obligations("Properties_C09")
-    d_default = ctx.build("default")
     if got is None:
         return
     sigs, report = got
     for s_ in sorted(set(report["signed_sites"])):
-        ctx.assume("signed C arithmetic modelled as two's complement (undefined in C only for INT64_MIN; the theorems exclude it): " + s_)
-    ctx.assume("shift counts of luint_shl/luint_shr are inside [0,128): larger counts are undefined behaviour in C and outside the theorems (the callers pass literals 1, 32 and digit offsets < 64)")
+        ctx.assume("signed C arithmetic modelled as two's complement; the generated _safe condition (proved for b <> INT64_MIN) is what makes it defined C: " + s_)
+    ctx.assume("shift counts of luint_shl/luint_shr are inside [0,128): larger counts are undefined behaviour in C and outside the theorems (generated _safe conditions; the callers pass literals 1, 32)")
     exe = ctx.extract("C09")
     if exe is None:
         return
-    _luint_part(ctx, d_custom, exe, sigs)
-    _arith_outer(ctx, d_default, d_custom)
-    B.VARIANTS.setdefault("nosimplify_customll", dict(CPPFLAGS="-D%s=1 -DSEXP_USE_SIMPLIFY=0 -DSEXP_USE_CUSTOM_LONG_LONGS=1" % B.GUARD))
-    dirs = dict(default=d_default, nosimplify=ctx.build("nosimplify"), customll=d_custom, both=ctx.build("nosimplify_customll"))
-    _simplify_part(ctx, exe, dirs)
+    if os.path.exists(os.path.join(d_custom, "libchibi-scheme.so")):
+        _luint_part(ctx, d_custom, exe, sigs)
+    if "default" in dirs and "customll" in dirs:
+        _arith_outer(ctx, dirs["default"], dirs["customll"])
+    if "default" in dirs:
+        _simplify_part(ctx, exe, dirs)
 
 
 # ------------------------------------------------------------------------------------------------ (B) simplify
@@ -364,7 +400,7 @@ class Gen:
     """let-fragment programs aimed at the case split of simplify.c: foldable arithmetic (incl. results beyond the fixnum
     range, zero divisors, non-numeric operands, wrong arity), lets binding literals / folded constants / non-constants,
     shadowing of the same name by nested lets, parameters assigned by set! (lambda-set-vars), literal and folded `if`
-    tests, value-only and effectful statements in non-tail sequence positions, rest parameters."""
+    tests, value-only and effectful statements in non-tail sequence positions, rest parameters (rich=True)."""
     def __init__(self, rng, rich=False):
         self.rng, self.rich = rng, rich
         self.stats = dict(fold=0, fold_raises=0, let_const=0, let_mutated=0, shadow=0, const_test=0, seq_drop=0, effect_stmt=0, rest=0)
@@ -578,6 +614,8 @@ RICH = [  # closures, recursion, rest parameters, internal defines: compared acr
     "(let loop ((i 0) (acc 1)) (if (< i 10) (loop (+ i 1) (* acc 3)) (begin (out acc) (+ acc (* 2 3)))))",
     "(let ((f (lambda (a . r) (out (+ a 1 2)) r))) (f 1 2 3) (out (f 4)) (f (+ 2 3) (* 2 (+ 1 1))))",
     "(let ((f (lambda (a . r) a))) (list (f 3) 2 1))",
+    "(let ((g (lambda (a . r) (set! r 5) a))) (list (g 3) 2 1))",
+    "(let ((g (lambda (a . r) (set! r (cons a r)) (if (< a 0) r a)))) (out (g -1 2)) (list (g 3) 2 1))",
     "(let ((k 5)) (define (g n) (if (< n 1) k (+ (* 1 1) (g (- n 1))))) (out (g 4)) (set! k (+ k (- 10 3))) (g 2))",
     "(let* ((x 2) (y (+ x 3)) (x (* y 2))) (out x) (let ((x (+ 1 1)) (y x)) (out (+ x y)) (set! x (+ x 40)) x))",
     "(let ((v (vector 1 2 3))) (vector-set! v 0 (+ 4 5)) 'a \"str\" v (vector-ref v 0))",
@@ -668,16 +706,19 @@ def _simplify_part(ctx, exe, dirs):
         outs[v] = _split_cases(r.stdout)
         if len(outs[v]) != len(allp):
             ctx.broken("outer-correspondence:C09:" + v, "build %s ran %d of %d programs (rc=%s): %s" % (v, len(outs[v]), len(allp), r.returncode, r.stderr[-400:]))
+    pairs = [(v, base, kind) for v, base, kind in [("default", "nosimplify", "simplify"), ("customll", "default", "customll"),
+                                                    ("both", "nosimplify", "customll-without-simplify")] if v in outs and base in outs]
+    if "nosimplify" not in outs:
+        ctx.broken("outer-correspondence:C09:nosimplify", "no SEXP_USE_SIMPLIFY=0 build to compare with")
     for i, p in enumerate(allp):
-        ref = outs["nosimplify"].get(i)
+        ref = outs.get("nosimplify", {}).get(i)
         ctx.count(1, key=("outerB", p), nontrivial=True)
         replay = "printf '%%s' '%s(run-case 0 (lambda () %s))' > /tmp/c09o.scm; for d in %s; do echo $d; LD_LIBRARY_PATH=$d CHIBI_MODULE_PATH=$d/lib $d/chibi-scheme /tmp/c09o.scm; done" % (
             OUTER_PRELUDE.replace("'", "'\\''"), p.replace("'", "'\\''"), " ".join(dirs.values()))
-        for v in dirs:
-            if v != "nosimplify" and outs[v].get(i) != ref:
-                kind = "simplify" if v in ("default",) else ("customll" if v == "customll" else "simplify+customll")
-                ctx.violation("build-variant:%s-changes-output" % kind, input=p, expected=ref, observed=outs[v].get(i), variant=v, reference="nosimplify",
-                              replay=replay, why="identical program text prints different output under build variant %s than under SEXP_USE_SIMPLIFY=0" % v)
+        for v, base, kind in pairs:
+            if outs[v].get(i) != outs[base].get(i):
+                ctx.violation("build-variant:%s-changes-output" % kind, input=p, expected=outs[base].get(i), observed=outs[v].get(i), variant=v, reference=base,
+                              replay=replay, why="identical program text prints different output under build variant %s than under %s" % (v, base))
         # against the SPEC interpreter where it defines the meaning
         if i in sem and sem[i][0].startswith("V") and ref is not None:
             m_run, nm = sem[i]
@@ -691,6 +732,6 @@ def _simplify_part(ctx, exe, dirs):
             if exp != got:
                 ctx.violation("sem:nosimplify-build-differs-from-spec", input=p, expected=exp, observed=ref, replay=replay,
                               why="the unoptimised build prints something else than the SPEC interpreter (coq/C09/Simplify.v eval) defines")
-    ctx.sample(dict(kind="outer-variants", program=allp[len(progs)], outputs={v: outs[v].get(len(progs)) for v in dirs}))
+    ctx.sample(dict(kind="outer-variants", program=allp[len(progs)], outputs={v: outs[v].get(len(progs)) for v in outs}))
     ctx.note("programs whose meaning the SPEC interpreter defines: %d of %d" % (sum(1 for v in sem.values() if v[0].startswith("V")), len(sem)))
     ctx.note("generator distribution (let-fragment programs): %s; rich programs: %d fixed + %s" % (g.stats, len(RICH), g2.stats))
